@@ -318,6 +318,20 @@ def run_case(ch: Choices, params: dict) -> dict:
     n_ops = ch.rng_int(5, params.get("max_ops", 24), "n_ops")
     try:
         builder_mod.selene_sim.build = spy_build
+        if ch.draw(2, "start_multi_shot"):
+            # half of the histories start from a multi-shot, seeded configuration: shot
+            # offset / increment / process options only matter when there are several shots
+            v, sd = ch.rng_int(2, 4, "start_shots"), [1, 2, 0][ch.draw(3, "start_seed")]
+            h1 = base.with_shots(v).with_seed(sd)
+            rec1 = copy.deepcopy(records[0])
+            rec1["shots"], rec1["seed"] = v, sd
+            handles.append(h1)
+            records.append(rec1)
+            runs_seen.append([])
+            names.append("h1")
+            history.append(f"h1 = base.with_shots({v}).with_seed({sd})")
+            log.add("derive", "h1", "base", f"with_shots({v}).with_seed({sd})")
+            check_all("with_seed", len(handles) - 1)
         for _ in range(n_ops):
             steps += 1
             k = ch.draw(20, "op")
